@@ -4,7 +4,10 @@ package harness
 // MsgCancelProposal), the real sanction keeper (hooks, msg server, send restriction) and the
 // real bank / staking msg servers, on one app.App per process and one cached context per
 // history.  After every operation `q` dumps IsSanctionedAddr per address, the sanction store
-// (permanent, temporary, index), the gov proposals and the balances.
+// (permanent, temporary, index), the gov proposals with their total deposit (every denom), the
+// two immediate min-deposit params and the balances.  A history accepts 1-3 deposit denoms; the
+// immediate thresholds have 0-4 denoms and deposits move every denom below / to / above its
+// part of a threshold independently.
 
 import (
 	"bytes"
@@ -62,19 +65,96 @@ var sancUsers = []string{"A", "B", "C", "D"}
 
 const sancBond = "stake"
 
-type sancCfg struct {
-	cancel               string // n/d
-	burnQ, burnV, burnP  bool
-	minDep, expMinDep    int64
-	depP, votP, expVotP  int64
-	initRatio, depRatio  string
-	initMin, initMinExp  int64
-	depMin, depMinExp    int64
+// sancAmts is one amount per denom (a gov deposit parameter or an immediate threshold).
+type sancAmts map[string]int64
+
+func (a sancAmts) denoms() []string {
+	var ds []string
+	for d := range a {
+		ds = append(ds, d)
+	}
+	sort.Strings(ds)
+	return ds
 }
 
-func sancDefaultCfg() sancCfg {
-	return sancCfg{cancel: "1/2", burnV: true, minDep: 1000, expMinDep: 2000, depP: 100, votP: 100, expVotP: 50,
-		initRatio: "0.1", depRatio: "0.01", initMin: 100, initMinExp: 200, depMin: 10, depMinExp: 20}
+func (a sancAmts) coins() sdk.Coins {
+	cs := sdk.Coins{}
+	for _, d := range a.denoms() {
+		if a[d] > 0 {
+			cs = cs.Add(sdk.NewInt64Coin(d, a[d]))
+		}
+	}
+	return cs
+}
+
+func (a sancAmts) String() string { return sancCoinsStr(a.coins()) }
+
+func (a sancAmts) scaled(num, den int64) sancAmts {
+	o := sancAmts{}
+	for d, x := range a {
+		o[d] = x * num / den
+	}
+	return o
+}
+
+func sancAmtsOf(cs sdk.Coins) sancAmts {
+	o := sancAmts{}
+	for _, c := range cs {
+		o[c.Denom] = c.Amount.Int64()
+	}
+	return o
+}
+
+type sancCfg struct {
+	cancel              string // n/d
+	burnQ, burnV, burnP bool
+	minDep, expMinDep   sancAmts // gov MinDeposit / ExpeditedMinDeposit (the accepted deposit denoms)
+	depP, votP, expVotP int64
+	initRatio, depRatio string
+	initMin, initMinExp sancAmts // min deposit x MinInitialDepositRatio (0.1)
+	depMin, depMinExp   sancAmts // min deposit x MinDepositRatio (0.01)
+}
+
+// the regular min deposit per denom of the deposit denoms a history may accept (all multiples
+// of 100, so that the ratios 0.1 and 0.01 are exact); the expedited one is twice that.
+var sancDenomMin = map[string]int64{sancBond: 1000, "acoin": 400, "xcoin": 3000}
+
+func sancCfgFor(denoms []string) sancCfg {
+	min := sancAmts{}
+	for _, d := range denoms {
+		min[d] = sancDenomMin[d]
+	}
+	return sancCfgOfMin(min, min.scaled(2, 1))
+}
+
+func sancCfgOfMin(min, exp sancAmts) sancCfg {
+	return sancCfg{cancel: "1/2", burnV: true, minDep: min, expMinDep: exp, depP: 100, votP: 100, expVotP: 50,
+		initRatio: "0.1", depRatio: "0.01", initMin: min.scaled(1, 10), initMinExp: exp.scaled(1, 10),
+		depMin: min.scaled(1, 100), depMinExp: exp.scaled(1, 100)}
+}
+
+func sancDefaultCfg() sancCfg { return sancCfgFor([]string{sancBond}) }
+
+// sancDepParam reads a deposit parameter of the cfg line: coins, or a bare number of the bond denom.
+func sancDepParam(ws []string, k string) (sancAmts, bool) {
+	v := sancKV(ws, k, "")
+	if v == "" {
+		return nil, false
+	}
+	allDigits := true
+	for _, ch := range v {
+		if ch < '0' || ch > '9' {
+			allDigits = false
+		}
+	}
+	if allDigits {
+		v += sancBond
+	}
+	cs, ok := sancCoins(v)
+	if !ok || len(cs) == 0 {
+		return nil, false
+	}
+	return sancAmtsOf(cs), true
 }
 
 func sancCancelDec(r string) string {
@@ -175,6 +255,21 @@ func sancCoins(s string) (sdk.Coins, bool) {
 		cs = append(cs, sdk.Coin{Denom: p[i:], Amount: amt})
 	}
 	return cs, true
+}
+
+// sancCoinsStr renders coins in denom order (the model prints canonical coins that way).
+func sancCoinsStr(cs sdk.Coins) string {
+	if len(cs) == 0 {
+		return "-"
+	}
+	c2 := make(sdk.Coins, len(cs))
+	copy(c2, cs)
+	sort.SliceStable(c2, func(i, j int) bool { return c2[i].Denom < c2[j].Denom })
+	parts := make([]string, 0, len(c2))
+	for _, c := range c2 {
+		parts = append(parts, c.Amount.String()+c.Denom)
+	}
+	return strings.Join(parts, ",")
 }
 
 func sancErrClass(err error) string {
@@ -280,6 +375,20 @@ func (e *sancEnv) anyMsgs(spec string) ([]sdk.Msg, bool) {
 
 func (e *sancEnv) applyCfg(ws []string) string {
 	c := sancDefaultCfg()
+	if min, ok := sancDepParam(ws, "mindep"); ok {
+		exp, ok2 := sancDepParam(ws, "expmindep")
+		if !ok2 {
+			return "err:setup"
+		}
+		c = sancCfgOfMin(min, exp)
+		// the floors on the line must be what the fixed ratios give (the model takes them from the line)
+		for k, want := range map[string]sancAmts{"initmin": c.initMin, "initminexp": c.initMinExp, "depmin": c.depMin, "depminexp": c.depMinExp} {
+			if got, ok := sancDepParam(ws, k); !ok || got.String() != want.String() {
+				e.t.Logf("cfg %s=%v, the ratios give %v", k, got, want)
+				return "err:setup"
+			}
+		}
+	}
 	c.cancel = sancKV(ws, "cancel", "1/2")
 	c.burnQ = sancKV(ws, "burnq", "0") == "1"
 	c.burnV = sancKV(ws, "burnv", "0") == "1"
@@ -290,8 +399,8 @@ func (e *sancEnv) applyCfg(ws []string) string {
 		return "err:setup"
 	}
 	d := func(s int64) *time.Duration { x := time.Duration(s) * time.Second; return &x }
-	p.MinDeposit = sdk.NewCoins(sdk.NewInt64Coin(sancBond, c.minDep))
-	p.ExpeditedMinDeposit = sdk.NewCoins(sdk.NewInt64Coin(sancBond, c.expMinDep))
+	p.MinDeposit = c.minDep.coins()
+	p.ExpeditedMinDeposit = c.expMinDep.coins()
 	p.MaxDepositPeriod, p.VotingPeriod, p.ExpeditedVotingPeriod = d(c.depP), d(c.votP), d(c.expVotP)
 	p.MinInitialDepositRatio, p.MinDepositRatio = c.initRatio, c.depRatio
 	p.ProposalCancelRatio, p.ProposalCancelDest = sancCancelDec(c.cancel), ""
@@ -313,7 +422,7 @@ func (e *sancEnv) cfgLine(c sancCfg) string {
 	for _, n := range sancOrder {
 		bal := e.a.BankKeeper.GetAllBalances(e.ctx, sancAddrs[n])
 		if !bal.IsZero() {
-			b0 = append(b0, n+":"+CoinsStr(bal))
+			b0 = append(b0, n+":"+sancCoinsStr(bal))
 		}
 	}
 	b := func(x bool) string {
@@ -322,7 +431,7 @@ func (e *sancEnv) cfgLine(c sancCfg) string {
 		}
 		return "0"
 	}
-	return fmt.Sprintf("cfg unsanc=%s names=%s bond=%s mindep=%d expmindep=%d initmin=%d initminexp=%d depmin=%d depminexp=%d depp=%d votp=%d expvotp=%d cancel=%s burnq=%s burnv=%s burnp=%s bal0=%s",
+	return fmt.Sprintf("cfg unsanc=%s names=%s bond=%s mindep=%s expmindep=%s initmin=%s initminexp=%s depmin=%s depminexp=%s depp=%d votp=%d expvotp=%d cancel=%s burnq=%s burnv=%s burnp=%s bal0=%s",
 		strings.Join(sancUnsanc, "|"), strings.Join(sancOrder, "|"), sancBond, c.minDep, c.expMinDep, c.initMin, c.initMinExp,
 		c.depMin, c.depMinExp, c.depP, c.votP, c.expVotP, c.cancel, b(c.burnQ), b(c.burnV), b(c.burnP), JoinOr(b0, "|"))
 }
@@ -653,7 +762,7 @@ func (e *sancEnv) dump() string {
 				b = "1"
 			}
 			san = append(san, n+":"+b)
-			bal = append(bal, n+":"+CoinsStr(e.a.BankKeeper.GetAllBalances(e.ctx, sancAddrs[n])))
+			bal = append(bal, n+":"+sancCoinsStr(e.a.BankKeeper.GetAllBalances(e.ctx, sancAddrs[n])))
 		}
 		k.IterateSanctionedAddresses(e.ctx, func(addr sdk.AccAddress) bool {
 			perm = append(perm, e.name(addr))
@@ -708,10 +817,12 @@ func (e *sancEnv) dump() string {
 			}
 			st := map[govv1.ProposalStatus]string{govv1.StatusDepositPeriod: "D", govv1.StatusVotingPeriod: "V", govv1.StatusPassed: "P",
 				govv1.StatusRejected: "R", govv1.StatusFailed: "F"}[p.Status]
-			props = append(props, fmt.Sprintf("%d:%s:%s", id, st, sdk.Coins(p.TotalDeposit).AmountOf(sancBond)))
+			props = append(props, fmt.Sprintf("%d:%s:%s", id, st, sancCoinsStr(sdk.Coins(p.TotalDeposit))))
 		}
-		return fmt.Sprintf("san=%s perm=%s temp=%s idx=%s props=%s next=%d bal=%s",
-			JoinOr(san, ";"), JoinOr(perm, ";"), JoinOr(temp, ";"), JoinOr(idx, ";"), JoinOr(props, ";"), next, JoinOr(bal, ";"))
+		sp := k.GetParams(e.ctx)
+		return fmt.Sprintf("san=%s perm=%s temp=%s idx=%s props=%s next=%d smin=%s umin=%s bal=%s",
+			JoinOr(san, ";"), JoinOr(perm, ";"), JoinOr(temp, ";"), JoinOr(idx, ";"), JoinOr(props, ";"), next,
+			sancCoinsStr(sp.ImmediateSanctionMinDeposit), sancCoinsStr(sp.ImmediateUnsanctionMinDeposit), JoinOr(bal, ";"))
 	})
 }
 
@@ -724,8 +835,8 @@ type sancGen struct {
 	last string
 	failProne bool // more protected addresses among the targets (passed proposals whose messages fail)
 	mode int // 0 = mixed, 1 = voting-heavy (proposals reach the voting period and are resolved by votes)
-	sanc int64 // immediate sanction min deposit (0 = none)
-	uns  int64
+	sanc sancAmts // immediate sanction min deposit, one amount per denom (empty = none)
+	uns  sancAmts
 }
 
 func (g *sancGen) do(op string) string {
@@ -802,13 +913,6 @@ func (g *sancGen) q() {
 	}
 }
 
-func (g *sancGen) coin(n int64) string {
-	if n < 0 {
-		n = 0
-	}
-	return fmt.Sprintf("%d%s", n, sancBond)
-}
-
 func (g *sancGen) target() string {
 	r := g.r
 	switch {
@@ -850,25 +954,189 @@ func (g *sancGen) msgs() string {
 	return JoinOr(ms, ";")
 }
 
-// interesting deposit amounts: around the gov floors and the immediate thresholds
-func (g *sancGen) amount(total int64) int64 {
+// interesting deposit amounts of one denom: around the gov floors and the immediate thresholds
+// of that denom, given what the proposal already holds of it
+func (g *sancGen) amount(d string, total int64) int64 {
 	r := g.r
 	c := g.e.cfg
-	cands := []int64{c.depMin - 1, c.depMin, c.initMin - 1, c.initMin, c.initMinExp, c.minDep - total, c.minDep - total - 1, c.expMinDep - total,
-		int64(1 + r.Intn(400)), int64(100 + r.Intn(1500))}
-	for _, th := range []int64{g.sanc, g.uns} {
+	sc := sancDenomMin[d]
+	if sc == 0 {
+		sc = 1000
+	}
+	cands := []int64{c.depMin[d] - 1, c.depMin[d], c.initMin[d] - 1, c.initMin[d], c.initMinExp[d], c.minDep[d] - total, c.minDep[d] - total - 1,
+		c.expMinDep[d] - total, int64(1 + r.Intn(int(sc*2/5))), sc/10 + int64(r.Intn(int(sc*3/2)))}
+	for _, th := range []int64{g.sanc[d], g.uns[d]} {
 		if th > 0 {
 			cands = append(cands, th-total, th-total-1, th-total+1, th, th-1)
 		}
 	}
 	x := Pick(r, cands)
 	if g.mode == 1 && r.Chance(55) {
-		x = Pick(r, []int64{c.minDep - total, c.minDep - total, c.expMinDep - total, c.minDep - total + int64(r.Intn(600))})
+		x = Pick(r, []int64{c.minDep[d] - total, c.minDep[d] - total, c.expMinDep[d] - total, c.minDep[d] - total + int64(r.Intn(int(sc*3/5)))})
 	}
 	if x <= 0 {
-		x = int64(1 + r.Intn(300))
+		x = int64(1 + r.Intn(int(sc*3/10)))
 	}
 	return x
+}
+
+// deposit builds the coins of a deposit on a proposal that already holds `total`.  Every
+// accepted denom is a dimension of its own: the deposit may leave a denom out, bring it just
+// below / exactly to / just above a threshold, while the other denoms are anywhere.
+func (g *sancGen) deposit(total sancAmts, initial bool) string {
+	r := g.r
+	c := g.e.cfg
+	ds := c.minDep.denoms()
+	amts := sancAmts{}
+	switch {
+	case r.Chance(30) && (len(g.sanc) > 0 || len(g.uns) > 0):
+		// aim at one immediate threshold: complete every denom of it that can be deposited, then
+		// move one denom to just below / just above, or leave one denom out
+		th := g.sanc
+		if len(th) == 0 || len(g.uns) > 0 && r.Chance(40) {
+			th = g.uns
+		}
+		for _, d := range ds {
+			if th[d] > total[d] {
+				amts[d] = th[d] - total[d]
+			} else if r.Chance(40) {
+				amts[d] = g.amount(d, total[d])
+			}
+		}
+		if len(amts) > 0 {
+			d := Pick(r, amts.denoms())
+			switch r.Intn(6) {
+			case 0:
+				amts[d]--
+			case 1:
+				amts[d]++
+			case 2:
+				if len(amts) > 1 {
+					delete(amts, d)
+				}
+			case 3:
+				amts[d] = g.amount(d, total[d])
+			}
+		}
+	case g.mode == 1 && r.Chance(40):
+		// complete the (regular or expedited) min deposit in every denom
+		target := c.minDep
+		if r.Chance(25) {
+			target = c.expMinDep
+		}
+		for _, d := range ds {
+			if x := target[d] - total[d]; x > 0 {
+				amts[d] = x + int64(r.Intn(2))*int64(r.Intn(int(sancDenomMin[d]/2)))
+			}
+		}
+	default:
+		all := g.mode == 1 && r.Chance(60) // voting-heavy: deposits that can complete the min deposit
+		for _, d := range ds {
+			if all || r.Chance(65) || initial && r.Chance(85) {
+				amts[d] = g.amount(d, total[d])
+			}
+		}
+	}
+	if initial && r.Chance(70) {
+		// the initial deposit needs the floor of every denom
+		for _, d := range ds {
+			fl := c.initMin[d]
+			if amts[d] < fl {
+				amts[d] = fl + int64(r.Intn(3))*int64(r.Intn(int(fl)))
+			}
+		}
+	}
+	for d, x := range amts {
+		if x <= 0 {
+			delete(amts, d)
+		}
+	}
+	if len(amts) == 0 {
+		d := Pick(r, ds)
+		amts[d] = g.amount(d, total[d])
+	}
+	if len(amts) > 1 {
+		g.out.Count("deposit:multi-denom")
+	}
+	out := amts.String()
+	if r.Chance(3) {
+		out = "5qcoin" // not a deposit denom
+		if r.Chance(50) && len(amts) > 0 {
+			amts["qcoin"] = 5
+			out = amts.String()
+		}
+	}
+	if r.Chance(2) {
+		out = "0" + sancBond
+	}
+	return out
+}
+
+// threshold picks an immediate min deposit: none, one denom, or several denoms (mostly
+// deposit denoms; sometimes a denom no deposit can ever hold, so the threshold is unreachable).
+func (g *sancGen) threshold(bases []int64) sancAmts {
+	r := g.r
+	ds := g.e.cfg.minDep.denoms()
+	th := sancAmts{}
+	if r.Chance(18) {
+		return th
+	}
+	pick := func(d string) {
+		b := Pick(r, bases)
+		sc := sancDenomMin[d]
+		if sc == 0 {
+			sc = 1000
+		}
+		th[d] = b * sc / 1000
+		if th[d] <= 0 {
+			th[d] = 1
+		}
+	}
+	switch {
+	case len(ds) == 1 && r.Chance(75):
+		pick(ds[0])
+	case r.Chance(35):
+		pick(Pick(r, ds))
+	default:
+		for _, d := range ds {
+			if r.Chance(80) {
+				pick(d)
+			}
+		}
+	}
+	if r.Chance(12) {
+		pick(Pick(r, []string{"acoin", "xcoin", "zcoin"})) // possibly not a deposit denom
+	}
+	if len(th) == 0 {
+		pick(Pick(r, ds))
+	}
+	return th
+}
+
+func (g *sancGen) coin(n int64) string {
+	if n < 0 {
+		n = 0
+	}
+	return fmt.Sprintf("%d%s", n, sancBond)
+}
+
+// thresholdClass tells how far a total deposit is from an immediate threshold: "none" (no
+// denom of it reached), "partial" (some but not all: the case a per-denom comparison must get
+// right), "all".
+func sancThresholdClass(total sdk.Coins, th sancAmts) string {
+	n := 0
+	for d, x := range th {
+		if total.AmountOf(d).GTE(sdkmath.NewInt(x)) {
+			n++
+		}
+	}
+	switch {
+	case n == 0:
+		return "none"
+	case n < len(th):
+		return "partial"
+	}
+	return "all"
 }
 
 func (g *sancGen) who() string {
@@ -878,8 +1146,8 @@ func (g *sancGen) who() string {
 	return Pick(g.r, sancUsers)
 }
 
-func (g *sancGen) propTotals() (ids []uint64, totals map[uint64]int64, proposers map[uint64]string, next uint64) {
-	totals = map[uint64]int64{}
+func (g *sancGen) propTotals() (ids []uint64, totals map[uint64]sancAmts, proposers map[uint64]string, next uint64) {
+	totals = map[uint64]sancAmts{}
 	proposers = map[uint64]string{}
 	next, _ = g.e.a.GovKeeper.ProposalID.Peek(g.e.ctx)
 	for id := uint64(1); id < next; id++ {
@@ -888,7 +1156,7 @@ func (g *sancGen) propTotals() (ids []uint64, totals map[uint64]int64, proposers
 			continue
 		}
 		ids = append(ids, id)
-		totals[id] = sdk.Coins(p.TotalDeposit).AmountOf(sancBond).Int64()
+		totals[id] = sancAmtsOf(p.TotalDeposit)
 		if pa, err := sdk.AccAddressFromBech32(p.Proposer); err == nil {
 			proposers[id] = g.e.name(pa)
 		}
@@ -957,6 +1225,24 @@ func (g *sancGen) countTransitions(kind string, before map[uint64]string, hadTem
 	}
 }
 
+// countThreshold records, after an accepted submit / deposit on proposal id, how its total
+// deposit stands against each immediate threshold.
+func (g *sancGen) countThreshold(id uint64) {
+	p, err := g.e.a.GovKeeper.Proposals.Get(g.e.ctx, id)
+	if err != nil {
+		return
+	}
+	for _, th := range []sancAmts{g.sanc, g.uns} {
+		if len(th) > 0 {
+			n := "1"
+			if len(th) > 1 {
+				n = "multi"
+			}
+			g.out.Count(fmt.Sprintf("deposit-vs-threshold:%s-denom:%s", n, sancThresholdClass(p.TotalDeposit, th)))
+		}
+	}
+}
+
 func (g *sancGen) sanctionedNames() []string {
 	var out []string
 	for _, n := range []string{"A", "B", "C", "D", "V"} {
@@ -971,7 +1257,10 @@ func (g *sancGen) history(k int, steps int) {
 	r := g.r
 	g.e = newSancEnv(g.e.t)
 	g.out.Comment(fmt.Sprintf("history %d", k))
-	c := sancDefaultCfg()
+	denoms := Pick(r, [][]string{{sancBond}, {sancBond}, {sancBond}, {"acoin", sancBond}, {"acoin", sancBond}, {sancBond, "xcoin"},
+		{sancBond, "xcoin"}, {"acoin", sancBond, "xcoin"}})
+	g.out.Count(fmt.Sprintf("cfg:deposit-denoms:%d", len(denoms)))
+	c := sancCfgFor(denoms)
 	c.cancel = Pick(r, []string{"1/2", "1/2", "1/4", "0/1", "1/1"})
 	c.burnQ, c.burnV, c.burnP = r.Chance(30), r.Chance(70), r.Chance(25)
 	g.e.cfg = c
@@ -979,27 +1268,49 @@ func (g *sancGen) history(k int, steps int) {
 	line := g.e.cfgLine(c)
 	g.do(line)
 	for _, n := range sancUsers {
-		if r.Chance(90) {
-			g.do(fmt.Sprintf("fund who=%s amt=%s", n, g.coin(int64(200+r.Intn(6000)))))
+		f := sancAmts{}
+		for _, d := range denoms {
+			if r.Chance(90) {
+				f[d] = int64(200+r.Intn(6000)) * sancDenomMin[d] / 1000
+			}
 		}
+		if r.Chance(10) {
+			f["qcoin"] = int64(1 + r.Intn(500))
+		}
+		if len(f) > 0 {
+			g.do(fmt.Sprintf("fund who=%s amt=%s", n, f))
+		}
+	}
+	if len(denoms) > 1 {
+		// the voter deposits too: it needs the other deposit denoms
+		f := sancAmts{}
+		for _, d := range denoms {
+			if d != sancBond {
+				f[d] = 1000 * sancDenomMin[d]
+			}
+		}
+		g.do(fmt.Sprintf("fund who=V amt=%s", f))
 	}
 	g.mode = 0
 	if r.Chance(45) {
 		g.mode = 1
 	}
 	g.failProne = g.mode == 1 && r.Chance(30)
-	g.sanc = Pick(r, []int64{0, 150, 150, 500, 500, 1000, 1500})
+	g.sanc = g.threshold([]int64{150, 150, 500, 500, 1000, 1500})
 	if g.failProne {
-		g.sanc = Pick(r, []int64{0, 1500, 2500})
+		g.sanc = g.threshold([]int64{1500, 2500})
 	}
-	g.uns = Pick(r, []int64{0, 0, 300, 300, 700, 1200})
-	pc := func(x int64) string {
-		if x == 0 {
-			return "-"
+	g.uns = g.threshold([]int64{300, 300, 700, 1200})
+	if r.Chance(20) {
+		g.uns = sancAmts{}
+	}
+	countTh := func() {
+		for _, th := range []sancAmts{g.sanc, g.uns} {
+			g.out.Count(fmt.Sprintf("params:threshold-denoms:%d", len(th)))
 		}
-		return g.coin(x)
 	}
-	g.do(fmt.Sprintf("params sanc=%s unsanc=%s", pc(g.sanc), pc(g.uns)))
+	countTh()
+	g.do(fmt.Sprintf("params sanc=%s unsanc=%s", g.sanc, g.uns))
 	g.q()
 	for i := 0; i < steps; i++ {
 		ids, totals, proposers, next := g.propTotals()
@@ -1039,17 +1350,16 @@ func (g *sancGen) history(k int, steps int) {
 			if r.Chance(15) || g.mode == 1 && r.Chance(15) {
 				exp = "1"
 			}
-			g.do(fmt.Sprintf("submit who=%s msgs=%s dep=%s exp=%s", g.who(), g.msgs(), g.coin(g.amount(0)), exp))
+			res := g.do(fmt.Sprintf("submit who=%s msgs=%s dep=%s exp=%s", g.who(), g.msgs(), g.deposit(sancAmts{}, true), exp))
+			var id uint64
+			if n, _ := fmt.Sscanf(res, "ok %d", &id); n == 1 {
+				g.countThreshold(id)
+			}
 		case x < 42:
 			id := pickID()
-			amt := g.coin(g.amount(totals[id]))
-			if r.Chance(3) {
-				amt = "5xcoin"
+			if g.do(fmt.Sprintf("deposit who=%s id=%d amt=%s", g.who(), id, g.deposit(totals[id], false))) == "ok" {
+				g.countThreshold(id)
 			}
-			if r.Chance(2) {
-				amt = "0" + sancBond
-			}
-			g.do(fmt.Sprintf("deposit who=%s id=%d amt=%s", g.who(), id, amt))
 		case x < 54:
 			id := pickID()
 			if len(voting) > 0 && r.Chance(85) {
@@ -1078,7 +1388,12 @@ func (g *sancGen) history(k int, steps int) {
 			if s := g.sanctionedNames(); len(s) > 0 && r.Chance(40) {
 				to = Pick(r, s)
 			}
-			bal := g.e.a.BankKeeper.GetBalance(g.e.ctx, sancAddrs[from], sancBond).Amount
+			dn := sancBond
+			kindOfDebit := r.Intn(5)
+			if kindOfDebit != 2 && r.Chance(40) {
+				dn = Pick(r, denoms) // (delegations are in the bond denom only)
+			}
+			bal := g.e.a.BankKeeper.GetBalance(g.e.ctx, sancAddrs[from], dn).Amount
 			amt := int64(1 + r.Intn(50))
 			// (never V's whole balance: the model's tally assumes V keeps (almost) all bonded stake,
 			// so what users can delegate must stay far below V's 1,000,000 bonded)
@@ -1088,11 +1403,11 @@ func (g *sancGen) history(k int, steps int) {
 			if amt <= 0 {
 				amt = 1
 			}
-			a := g.coin(amt)
+			a := fmt.Sprintf("%d%s", amt, dn)
 			if r.Chance(2) {
 				a = "0" + sancBond
 			}
-			switch r.Intn(5) {
+			switch kindOfDebit {
 			case 4:
 				via := Pick(r, sancUsers)
 				if via == from {
@@ -1119,9 +1434,13 @@ func (g *sancGen) history(k int, steps int) {
 			kind := Pick(r, []string{"s", "s", "u", "s!", "u!"})
 			g.do(fmt.Sprintf("msg m=%s:%s", kind, JoinOr([]string{g.target(), g.target()}[:1+r.Intn(2)], "|")))
 		default:
-			g.sanc = Pick(r, []int64{0, 100, 150, 500, 1000})
-			g.uns = Pick(r, []int64{0, 300, 700})
-			s, u := pc(g.sanc), pc(g.uns)
+			g.sanc = g.threshold([]int64{100, 150, 500, 1000})
+			g.uns = g.threshold([]int64{300, 700})
+			if r.Chance(25) {
+				g.uns = sancAmts{}
+			}
+			countTh()
+			s, u := g.sanc.String(), g.uns.String()
 			if r.Chance(15) {
 				s = "5stake,3abc" // not sorted: invalid
 			}
